@@ -3,8 +3,8 @@
    Models: Model/Os.v (ghost kernel, system-call log), Model/Mask.v (segments), Model/Purge.v (arenas, as
    repaired by 9676b42 and c59c73f).  `now` is the value of _mi_clock_now(); cfg are the option values. *)
 From Coq Require Import NArith ZArith List Bool.
-From MiV Require Import Gen.Consts Gen.OsConsts Model.Arith Model.Os Model.Mask Model.Purge
-  Proofs.OsProofs Proofs.MaskProofs Proofs.PurgeProofs.
+From MiV Require Import Gen.Consts Gen.OsConsts Model.Arith Model.Os Model.Mask Model.MaskWords Model.Purge
+  Proofs.OsProofs Proofs.MaskProofs Proofs.MaskWordsProofs Proofs.PurgeProofs.
 Import ListNotations.
 Local Open Scope N_scope.
 
@@ -37,6 +37,41 @@ Theorem C18_runs_exact : forall cm,
   sorted_from 0 (mask_runs cm).
 Proof. intros cm. exact (conj (mask_runs_sound cm) (conj (mask_runs_complete cm) (mask_runs_sorted cm))). Qed.
 Print Assumptions C18_runs_exact.
+
+(* the run iteration itself.  _mi_commit_mask_next_run returns the FIRST MAXIMAL run of set bits at or after idx (the
+   remainder of a run when idx lies inside it), or (MASK_BITS, 0) when no bit is set from idx on -- for every mask and idx *)
+Theorem C18_next_run_first_maximal_run : forall cm idx,
+  let r := commit_mask_next_run cm idx in
+  (snd r = 0 /\ fst r = MASK_BITS /\ forall k, idx <= k -> k < MASK_BITS -> N.testbit cm k = false) \/
+  (0 < snd r /\ idx <= fst r /\ fst r + snd r <= MASK_BITS /\
+   (forall k, idx <= k -> k < fst r -> N.testbit cm k = false) /\
+   (forall k, fst r <= k -> k < fst r + snd r -> N.testbit cm k = true) /\
+   (fst r + snd r = MASK_BITS \/ N.testbit cm (fst r + snd r) = false)).
+Proof. exact next_run_bits_spec. Qed.
+Print Assumptions C18_next_run_first_maximal_run.
+
+(* iterating it from 0 the way mi_commit_mask_foreach does (idx = 0; while ((count = next_run(cm,&idx)) > 0) { ...; idx += count })
+   terminates and enumerates exactly the maximal runs of set bits, in increasing order, each once: the visited list IS
+   mask_runs cm (what mi_segment_try_purge hands to mi_segment_purge), which is sorted, sound, complete, and every run is
+   bounded on both sides by a clear bit or an end of the mask *)
+Theorem C18_foreach_enumerates_maximal_runs : forall cm,
+  foreach_runs cm = Some (mask_runs cm) /\
+  sorted_from 0 (mask_runs cm) /\
+  (forall r k, In r (mask_runs cm) -> in_run r k -> k < MASK_BITS /\ N.testbit cm k = true) /\
+  (forall k, k < MASK_BITS -> N.testbit cm k = true -> exists r, In r (mask_runs cm) /\ in_run r k) /\
+  (forall r, In r (mask_runs cm) ->
+     (fst r = 0 \/ N.testbit cm (fst r - 1) = false) /\ (fst r + snd r = MASK_BITS \/ N.testbit cm (fst r + snd r) = false)).
+Proof. exact foreach_enumerates. Qed.
+Print Assumptions C18_foreach_enumerates_maximal_runs.
+
+(* the loops of the C function over the 8 words of 64 bits (Model/MaskWords.v: word index i, bit offset ofs that is reset to 0
+   when the scan moves to the next word, reload of the word when a run of ones reaches bit 63) compute that function, for all
+   8-word masks and every idx; hence the word-level foreach visits mask_runs too *)
+Theorem C18_next_run_words_refines : forall ws idx, length ws = 8%nat -> Forall (fun w => w < 2 ^ 64) ws ->
+  next_run_words ws idx = commit_mask_next_run (mask_of_fields ws) idx /\
+  foreach_words ws = Some (mask_runs (mask_of_fields ws)).
+Proof. exact words_refine. Qed.
+Print Assumptions C18_next_run_words_refines.
 
 (* the three expiry-update cases of mi_segment_schedule_purge (and the fourth: an old expired mask is purged first) *)
 Theorem C18_schedule_expiry_rules : forall cfg oracle o s p size now st fu m,
@@ -174,6 +209,15 @@ Example C18_ex_single_arena :
   (p_g st = 0%Z /\ map a_expire (p_arenas st) = [0%Z] /\ map a_purge (p_arenas st) = [0] /\
    calls (p_os st) = [(KMadvise, 2 ^ 40, BLOCK, MADV_DONTNEED_); (KMadvise, 2 ^ 40 + BLOCK, BLOCK, MADV_DONTNEED_)]).
 Proof. exact wit1_result. Qed.
+
+(* run iteration over several words: freed pages at slices 20 and 69 (word 0 bit 20, word 1 bit 5: the later run at a LOWER
+   bit position), a run across the boundary of words 1 and 2 (slices 126..129) and one that ends at the last bit of the mask *)
+Example C18_ex_runs_words :
+  let ws := [2 ^ 20; 2 ^ 5 + 2 ^ 62 + 2 ^ 63; 3; 0; 0; 0; 0; 2 ^ 63] in
+  foreach_words ws = Some [(20, 1); (69, 1); (126, 4); (511, 1)] /\
+  next_run_words ws 21 = (69, 1) /\ next_run_words ws 127 = (127, 3) /\ next_run_words ws 130 = (511, 1) /\
+  next_run_words ws 512 = (512, 0) /\ length ws = 8%nat /\ mask_runs (mask_of_fields ws) = [(20, 1); (69, 1); (126, 4); (511, 1)].
+Proof. vm_compute. repeat split. Qed.
 
 (* a segment with slices 3..6 scheduled at t=1000 (default options: delay 10ms): untouched at t=1009, purged by one
    madvise(DONTNEED) of 4 slices at t=1010 *)
